@@ -36,6 +36,9 @@ try:
         print(p, json.dumps(results[p], indent=1))
 finally:
     shutil.rmtree(copy, ignore_errors=True)
+    for p in props:
+        shutil.rmtree(os.path.join(VERIF, "work", "kani-target", p + "-" + name), ignore_errors=True)
+        shutil.rmtree(os.path.join(VERIF, "work", "kani-target", p + "-" + name + "-playback"), ignore_errors=True)
 meta.setdefault("detected_by", None)
 meta["check_results"] = {**meta.get("check_results", {}), **{"%s/%s" % (p, tier): v for p, v in results.items()}}
 det = [p for p, v in results.items() if v["exit"] == 1]
